@@ -633,7 +633,7 @@ def run_c12(rep, tier, seed):
         _merge(rep, col)
         # every configuration: functions of tools/geometric.py; CovModel methods and pipelines: all of dims 1-3,
         # a hash-selected share in 4-D
-        opts = {"model_low": True, "pipe_low": True, "model": 1 if thorough else 4, "pipe": 8 if thorough else 24}
+        opts = {"model_low": True, "pipe_low": True, "model": 2 if thorough else 4, "pipe": 12 if thorough else 24}
         wjobs = []
         for (mode, tag), r in sorted(results.items()):
             if mode == "lin":
